@@ -109,6 +109,9 @@ class ConstexprBufferWriter {
   constexpr void WriteElement(std::int16_t value, std::size_t offset) {
     WriteElement(static_cast<std::uint16_t>(value), offset);
   }
+  constexpr void WriteElement(bool value, std::size_t offset) {
+    WriteElement(static_cast<std::uint8_t>(value), offset);
+  }
   constexpr void WriteElement(char16_t value, std::size_t offset) {
     WriteElement(static_cast<std::uint16_t>(value), offset);
   }
